@@ -660,7 +660,7 @@ def correspond(ctx):
     for host, kind in hosts:
         for deg in range(0, 6):
             combos.append((host, kind, deg))
-    for host, kind, deg in combos:
+    for ci, (host, kind, deg) in enumerate(combos):
         reps = 5 if ctx.thorough else 3
         for rep in range(reps):
             # the last repetition of every (host, degree) is on an x-axis of unusual magnitude (round-robin over the kinds)
@@ -672,13 +672,14 @@ def correspond(ctx):
             if dmax < dmin:
                 continue
             d = int(rng.integers(dmin, dmax + 1))
-            pattern = patterns[int(rng.integers(0, len(patterns)))]
+            # stratified, not random: every host meets every x pattern across its degrees, user weights every third case
+            pattern = patterns[(ci + 2 * rep + ctx.seed) % len(patterns)]
             n = int(rng.choice([max(4, nb - 2), nb + 3, 40] + ([150] if ctx.thorough else [70])))
             x = make_x(rng, pattern, n)
             y = make_y(rng, x)
             lam = float(lams[int(rng.integers(0, len(lams)))])
             uw = None
-            if rng.random() < 0.35:
+            if (ci + rep + ctx.seed) % 3 == 0:
                 uw = np.round(rng.uniform(0.05, 1, n) * 64) / 64
             kw = dict(lam=lam, diff_order=d, num_knots=num_knots, spline_degree=deg, max_iter=int(rng.integers(0, 4)), tol=0.0, weights=uw)
             p1 = 0.0
@@ -688,7 +689,7 @@ def correspond(ctx):
             if kind == 'drpls':
                 p1 = float(rng.choice([0.0, 0.5, 1.0]))
                 kw['eta'] = p1
-            if kind == 'aspls' and rng.random() < 0.3:
+            if kind == 'aspls' and (rep + deg) % 2 == 0:      # a caller-supplied alpha in every second aspls case (with and without weights)
                 kw['alpha'] = np.round(rng.uniform(0.2, 1, n) * 64) / 64
             meta = {'section': 'main', 'host': host, 'kind': kind, 'pattern': pattern, 'n': n, 'y': y.tolist(), 'kw': jkw(kw), 'num_knots': num_knots,
                     'deg': deg, 'd': d, 'lam': lam, 'p1': p1, 'converged': bool(rng.random() < 0.5)}
@@ -745,7 +746,7 @@ def correspond(ctx):
         y = make_y(rng, x)
         lam = float(10.0 ** int(rng.integers(1, 6)))
         lam_smooth = float(10.0 ** int(rng.integers(-3, 1)))
-        uw = None if rng.random() < 0.5 else np.round(rng.uniform(0.05, 1, n) * 64) / 64
+        uw = None if i % 4 in (1, 2) else np.round(rng.uniform(0.05, 1, n) * 64) / 64      # with and without weights on both kinds of axis
         kw = dict(lam=lam, lam_smooth=lam_smooth, num_knots=num_knots, spline_degree=deg, diff_order=d, half_window=3, weights=uw)
         meta = {'section': 'mpspline', 'host': 'mpspline', 'kind': 'std', 'pattern': pattern, 'n': n, 'y': y.tolist(), 'num_knots': num_knots, 'deg': deg,
                 'd': d, 'lam': lam, 'kw': jkw(kw)}
